@@ -152,6 +152,10 @@ func matchCompTimeRange(start, end time.Time, comp *ical.Component) (bool, error
 		return false, nil
 	}
 	event := ical.Event{comp}
+	if event.Props.Get(ical.PropDateTimeStart) == nil {
+		// nothing to compare: DTSTART is required in a stored VEVENT
+		return false, nil
+	}
 
 	eventStart, err := event.DateTimeStart(start.Location())
 	if err != nil {
